@@ -92,6 +92,7 @@ Inductive action :=
 | AShutdown (g c : nat) (ok : bool)      (* component Shutdown returned *)
 | AProvShutdown (ctx_live : bool)        (* provider.Shutdown; was the context it got still live? *)
 | ACloseChan                             (* close(shutdownChan) succeeded *)
+| ARecovered                             (* close of the already closed channel panicked; Shutdown()'s deferred recover swallowed it *)
 | AReturn (r : result).
 
 (* ---- program counter of the goroutine executing Run ---------------------------------------- *)
@@ -250,11 +251,14 @@ Definition shut_check (s : cstate) : cstate :=
   | _ => s
   end.
 
-(* closing a closed channel panics; the panic is recovered: nothing happens *)
+(* closing a closed channel panics; the panic is recovered by the deferred function: nothing
+   happens to the collector — the event is kept in the log as ARecovered, because a Shutdown()
+   WITHOUT that guard would crash the process exactly there (checking "is it closed?" first does not
+   help: the check and the close of two callers interleave) *)
 Definition shut_close (s : cstate) : cstate * list action :=
   match st_closers s with
   | 0 => (s, [])
-  | S n => if st_chan_closed s then (set_chan s true n, []) else (set_chan s true n, [ACloseChan])
+  | S n => if st_chan_closed s then (set_chan s true n, [ARecovered]) else (set_chan s true n, [ACloseChan])
   end.
 
 (* leaving the loop: break LOOP / the ctx.Done() case; both start shutdown() by setting Closing *)
@@ -422,6 +426,7 @@ Definition is_shut (g c : nat) (a : action) : bool :=
   match a with AShutdown g' c' _ => Nat.eqb g g' && Nat.eqb c c' | _ => false end.
 Definition is_prov_shut (a : action) : bool := match a with AProvShutdown _ => true | _ => false end.
 Definition is_close_chan (a : action) : bool := match a with ACloseChan => true | _ => false end.
+Definition is_recovered (a : action) : bool := match a with ARecovered => true | _ => false end.
 Definition is_close (g : nat) (a : action) : bool := match a with AClose g' => Nat.eqb g g' | _ => false end.
 Definition is_return (a : action) : bool := match a with AReturn _ => true | _ => false end.
 
